@@ -40,6 +40,28 @@ fn c11_tsc_floor_full() {
     floor_spec(a, b, f);
 }
 
+// @cell props=C11 tier=quick kind=core timeout=900 mem=10 cls=N
+// @desc 8-bit slice of the same statement (a, b, f < 2^8, cast to u64): a fast guard that still decides when an
+// @desc edit makes the full-width query too hard for the solver (e.g. two 128-bit divisions instead of one)
+#[kani::proof]
+fn c11_tsc_floor_8() {
+    let a: u8 = kani::any();
+    let b: u8 = kani::any();
+    let f: u8 = kani::any();
+    kani::assume(f != 0);
+    let (a, b, f) = (a as u64, b as u64, f as u64);
+    let got = dur(a, b, f);
+    if b < a {
+        assert_eq!(got, 0);
+    } else {
+        let n = (b - a) as u128 * PICOS;
+        let p = got * f as u128;
+        assert!(got <= n && p <= n && n - p < f as u128);
+    }
+    kani::cover!(b > a && f == 3);
+    kani::cover!(b < a);
+}
+
 // The identity "at f = 10^12 Hz duration_since(a, b) == b - a" used by the sampling-loop harnesses as a cost
 // stub is a corollary of c11_tsc_floor_full (q*f <= d*f < q*f + f  =>  q = d); the corollary itself is
 // discharged by z3 in spec/c11_lemmas.smt2 (lemma `identity_at_1thz`). A direct CBMC query of the identity
